@@ -19,6 +19,9 @@ C16 line-protocol driver.
                                                                             → `ok <hex>` | `panic` | `fuel`
   var <text> <n>                 `parseVariadic` on a token with that text and n import arguments
                                                                             → `no` | `yes <start> <end>`
+  kbind <sites>                  site blocks with several keys: site = ports~binds, ports = p+p+… (p ∈ 0,1 → 8080, 8081;
+                                 key j of site i is http://h<i>k<j>.test:<port>), binds as in `bind` (`.` = none)
+                                                                            → `L=… P=… K=i.j,…|…` one per server
   dbind <dflt> <sites>           like `bind`, with `default_bind` global options <dflt> = bind,bind,… (a bind address `0`
                                  stands for "no address": `default_bind { protocols … }`)
   bind <sites>                   site blocks `http://h<i>.test:8080 { bind … }` through the whole adapter: the
@@ -53,6 +56,7 @@ import CaddyModel.C16.History
 import CaddyModel.C16.Args
 import CaddyModel.C16.ParseGlue
 import CaddyModel.C16.BindGlue
+import CaddyModel.C16.BindKeys
 import CaddyModel.C16.ServerOpts
 import CaddyModel.C16.Addr
 import CaddyModel.C16.Normalize
@@ -333,6 +337,25 @@ def handle : List String → String
         | none => "rej"
         | some res => "|".intercalate ((insertionSort (fun (a b : Srv) => decide (a.name < b.name)) res).map showSrv)
       | none => "bad-op"
+    | none => "bad-op"
+  | ["kbind", sites] =>
+    let parseSite := fun (t : String) =>
+      match t.splitOn "~" with
+      | [ps, bs] =>
+        let ports := (ps.splitOn "+").mapM fun p => if p == "0" then some "8080" else if p == "1" then some "8081" else none
+        let binds := if bs == "." then some [] else (bs.splitOn ",").mapM parseBind
+        match ports, binds with
+        | some pl, some bl =>
+          if pl.length ≤ 4 then some (KSite.mk (((List.range pl.length).zip pl).map fun (jp : Nat × String) => ("k" ++ toString jp.1, jp.2)) bl) else none
+        | _, _ => none
+      | _ => none
+    match (sites.splitOn ";").mapM parseSite with
+    | some ss =>
+      if ss.length ≤ 6 then
+        "|".intercalate ((serversOfK none ss).map fun (b : BServer) =>
+          "L=" ++ ",".intercalate b.listen ++ " P=" ++ showLP b.listenProtocols ++ " K=" ++
+            ",".intercalate ((b.blocks.flatMap keysOfCode).map fun (ij : Nat × Nat) => toString ij.1 ++ "." ++ toString ij.2))
+      else "bad-op"
     | none => "bad-op"
   | ["dbind", dflt, sites] =>
     match (dflt.splitOn ",").mapM parseBind, parseBSites sites with
